@@ -385,7 +385,7 @@ def run_job(job, io):
 
     def carry(site):
         # every treespec made so far still rebuilds its own tree, original key order included, whatever blocks are open now
-        for made_at, cns, how, spec, leaves, orig in carried:
+        for made_at, cns, how, spec, leaves, orig, data in carried:
             try:
                 back = optree.tree_unflatten(spec, leaves)
                 d = same(orig, back)
@@ -393,6 +393,20 @@ def run_job(job, io):
                 d = 'raised %s: %s' % (type(e).__name__, e)
             if d:
                 viol('round-trip', 'carried:' + how, 'a treespec made at %s (namespace %r) and unflattened at %s no longer rebuilds its tree: %s' % (made_at, cns, site, d))
+                break
+            # its pickle, made when the treespec was made, is LOADED now (whatever mode holds now) and must give that treespec back:
+            # what a treespec recorded belongs to the moment it was made, not to the moment it is loaded
+            try:
+                ld = pickle.loads(data)
+                d = None
+                if (ld.namespace, repr(ld), hash(ld)) != (spec.namespace, repr(spec), hash(spec)) or ld != spec:
+                    d = 'loaded %r (namespace %r) vs made %r (namespace %r)' % (ld, ld.namespace, spec, spec.namespace)
+                else:
+                    d = same(orig, optree.tree_unflatten(ld, leaves))
+            except Exception as e:  # noqa: BLE001
+                d = 'raised %s: %s' % (type(e).__name__, e)
+            if d:
+                viol('round-trip', 'carried-pickle:' + how, 'the pickle of a treespec made at %s (namespace %r), loaded at %s, is not that treespec: %s' % (made_at, cns, site, d))
                 break
         probes['carried-unflatten'] += len(carried)
         if len(carried) < 6 and tape.draw(3, 'carry-new') == 0:
@@ -407,7 +421,7 @@ def run_job(job, io):
                 leaves, spec = optree.tree_flatten(sub, namespace=cns)
                 spec = optree.treespec_tuple([spec], namespace=cns).child(0)
                 tree = sub
-            carried.append((site, cns, how, spec, leaves, tree))
+            carried.append((site, cns, how, spec, leaves, tree, pickle.dumps(spec, protocol=2 + tape.draw(4, 'carry-proto'))))
 
     def step(site, before):
         steps[0] += 1
